@@ -13,7 +13,10 @@ RULE = ("(a) every frame stream of the other properties' generators replayed und
         "log level in {off, error..trace} (quick: a rotating subset); (b) the malformed stream: every truncation of one "
         "seed frame per protocol and layer, length-field lies {0,1,0x7f,0x80,0xff,len-1,len+1,0xffff} at every length "
         "field (IPv4 IHL/total length, IPv6 payload length, TCP data offset, UDP length, NDP option length, STUN length "
-        "and attribute TLVs, DNS counts, RPC lengths, NBT/SMB counts), non-UTF-8 HTTP text, random byte mutations; on "
+        "and attribute TLVs, DNS counts, RPC lengths, NBT/SMB counts), non-UTF-8 HTTP text, random byte mutations, text "
+        "fields filled to every length boundary with multi-byte / invalid UTF-8 straddling it (under every log level), "
+        "several complete requests on one established flow for every responder (second message meets the state the "
+        "first left); on "
         "the dev (overflow-checking) and release builds; the observation is the outcome kind (reply / silence / panic) "
         "per frame, compared with the model; non-trivial = script with at least one frame that passes layer 2")
 TRUSTED = ["Coq 8.16.1 kernel + vm_compute", "extraction (ExtrOcamlBasic) + ocaml/model_run.ml", "harness/*.py",
@@ -127,7 +130,67 @@ def malformed(rng, tier):
             fr.append(gens.ns6(gens.PEER6, gens.SELF6, opts=bytes([1, ln]) + b"\0" * body, mac_dst=net.MAC_SELF))
     out.append(("ndp-options", fr))
     out.append(("stun-attrs", [net.frame_udp(gens.PEER4, gens.SELF4, 5, 3478, p) for p in stun_bad_attrs()]))
+    out.append(("long-text", long_text(rng, tier)))
+    out.append(("stateful-flows", stateful_flows(rng, tier)))
     return out
+
+
+BOUNDARIES = [8, 15, 16, 17, 31, 32, 63, 64, 100, 127, 128, 129, 255, 256, 257, 511, 512, 513, 1000, 1023, 1024, 1025, 1400]
+ODD_TEXT = [b"\xc3\xa9", b"\xe2\x82\xac", b"\xf0\x9f\x98\x80", b"\xff", b"\xc3", b"\x80", b"\xed\xa0\x80", b"\x00", b"\r", b"\x7f"]
+
+
+def long_text(rng, tier):
+    """Text fields that a log macro may format (HTTP method / target / header, SSH software and comment, SMB dialect
+    names, RPC opaque bodies) filled up to every length boundary with a multi-byte, truncated or invalid UTF-8 sequence
+    straddling the boundary: any slicing, width computation or conversion of untrusted text shows up as a panic when the
+    log level evaluates the arguments."""
+    fr = []
+    odd = ODD_TEXT if tier == "thorough" else ODD_TEXT[:5]
+    for n in BOUNDARIES:
+        for o in odd:
+            for k in range(len(o) + 1):
+                # the odd sequence starts k bytes before offset n of the field
+                fill = b"a" * max(0, n - k - 1)
+                uri = b"/" + fill + o + b"zz"
+                fr.append(net.frame_udp(gens.PEER4, gens.SELF4, 7, 80, b"GET " + uri + b" HTTP/1.1\r\nHost: x\r\n\r\n"))
+                if k == 0:
+                    fr.append(net.frame_udp(gens.PEER4, gens.SELF4, 7, 22, b"SSH-2.0-" + fill + o + b" c" + o + b"\r\n"))
+                    fr.append(net.frame_udp(gens.PEER6, gens.SELF6, 7, 80,
+                                            b"POST / HTTP/1.1\r\n" + fill[:200] + o + b": " + fill + o + b"\r\n\r\n"))
+    # the same through TCP, request cut into segments around the boundary
+    for n in (255, 256, 257, 1024):
+        for o in odd[:3]:
+            req = b"GET /" + b"a" * (n - 2) + o + b"zz HTTP/1.1\r\n\r\n"
+            for cutat in (n, n + 1, n + 5):
+                fr += gens.handshake((0, 0), gens.PEER4, gens.SELF4, 20000 + n + cutat % 7, 80, [req[:cutat], req[cutat:]])
+    # SMB dialect names (logged with warn!) that are not UTF-8 / very long
+    for o in odd[:4]:
+        for n in (1, 9, 10, 11, 255, 256):
+            dialects = b"\x02" + b"d" * (n - 1) + o + b"\x00\x02NT LM 0.12\x00"
+            body = SMB1_NEG[4:4 + 33] + struct.pack("<H", len(dialects)) + dialects
+            fr.append(net.frame_udp(gens.PEER4, gens.SELF4, 5, 445, b"\x00\x00" + struct.pack("!H", len(body)) + body))
+    return fr
+
+
+def stateful_flows(rng, tier):
+    """Several complete requests on ONE established flow, for every responder that keeps per-flow state (HTTP, ONC-RPC)
+    and, for contrast, those that do not: the second and later messages meet whatever the first one left behind."""
+    key = (0, 0)
+    rc = lambda **kw: gens.rpc_call(tcp=True, **kw)
+    c1, c2, c3 = rc(xid=0x81000001, vers=2, proc=3), rc(xid=0xffffffff, prog=100003, vers=4, proc=4, cred=b"abcde"), \
+        rc(xid=0x81ffffff, vers=0xffffffff, proc=0xff)
+    rep = rc(xid=0x81000009, mtype=1)
+    h1, h2 = gens.http_req(), gens.http_req(verb=b"DELETE", target=b"/" + b"\xff" * 30, headers=[])
+    flows = [[c1, c2], [c1, c2, c3], [c1 + c2 + c3], [c1, rep, c2], [c1, c2[:9], c2[9:], c3], [c3, c3, c3, c3],
+             [h1, h2], [h1, h2, h1], [h1 + h2], [h1, b"garbage\r\n\r\n", h2], [h1[:20], h1[20:], h2[:7], h2[7:]],
+             [h1, c1], [c1, h1], [b"SSH-2.0-a\r\n", b"SSH-2.0-b\r\n"], [gens.stun_req(magic=True, attrs=gens.stun_attr(0x8022, b"x" * 252)),
+                                                                         gens.stun_req(mtype=0x0101)],
+             [SMB1_NEG, SMB1_NEG], [SMB2_NEG, SMB2_NEG, SMB2_NEG]]
+    fr = []
+    for i, segs in enumerate(flows):
+        fr += gens.handshake(key, gens.PEER4, gens.SELF4, 30000 + i, 111, segs)
+        fr += gens.handshake(key, gens.PEER6, gens.SELF6, 30000 + i, 80, segs)
+    return fr
 
 
 def other_streams(tier, rng):
@@ -152,6 +215,8 @@ def generate(tier, rng):
     k = 0
     for tag, frames in malformed(rng, tier):
         sel = combos if tier == "thorough" else [combos[k % len(combos)], combos[(k * 7 + 5) % len(combos)], ("console", 4)]
+        if tag in ("long-text", "stateful-flows") and tier != "thorough":
+            sel = [("none", 5), ("none", 1), ("console", 1), ("logfmt", 2), ("console", 3), ("logfmt", 4)]
         k += 1
         for lg, lv in sel:
             for base in (Cfg(), Cfg(self_ips=[gens.SELF4, gens.SELF6], deny=[gens.DENY4])):
